@@ -286,8 +286,10 @@ fn cmp_int_float(int: i128, float: f64) -> Option<Ordering> {
 impl PartialEq for Value {
     fn eq(&self, other: &Self) -> bool {
         match (self, other) {
-            (Value::Map(a), Value::Map(b)) => a == b,
-            (Value::List(a), Value::List(b)) => a == b,
+            // Compare the contents rather than the `Arc`s: `Arc<T: Eq>` equality short-cuts on
+            // pointer identity, which would make a shared list or map holding NaN equal to itself.
+            (Value::Map(a), Value::Map(b)) => *a.map == *b.map,
+            (Value::List(a), Value::List(b)) => a.as_slice() == b.as_slice(),
             (Value::Function(a1, a2), Value::Function(b1, b2)) => a1 == b1 && a2 == b2,
             (Value::Int(a), Value::Int(b)) => a == b,
             (Value::UInt(a), Value::UInt(b)) => a == b,
